@@ -19,12 +19,145 @@ and the native `opaque` option are the translator's own `Tr` class):
                arguments beyond the first positional one, keywords included, as a `Nat` constant
                (`np.zeros(shape)` -> 0: numpy's default float64 buffer; `np.zeros(shape, dtype=…)` -> 1)
 
+  kind 'fwd'   (round 6) the call sites of the evaluation function inside `func`: every call whose callee
+               resolves to the parameter `callee` — directly, through `delayed(…)`, through a name bound
+               to it, or through `partial(callee, …)` / `functools.partial` (bound arguments are merged) —
+               in source order.  `what='count'` -> the number of call sites (Nat); `what='kw:<name>'`
+               (param `site : Nat`, ret Bool) -> whether call site number `site` forwards `<name>=<name>`
+               (the enclosing function's own parameter, never reassigned).  FAIL CLOSED: untranslatable
+               if a reference to the callee or to one of its aliases is not consumed by one of these
+               patterns (it escapes), if a call site uses `*` / `**`, if its positional arguments are not
+               exactly `(models, <a loop variable>)`, if a forwarded keyword carries another value than
+               the parameter of the same name, or if there is no call site at all.
+
 If the text no longer occurs (operator, operand or constant edited) the leaf is untranslatable and
 run_check reports the broken obligation.  Wish (notes/C19.md): move both kinds into py2lean.py.
 """
 import ast
 import os
 import sys
+
+
+_WRAPPERS = ('delayed', 'joblib.delayed')
+_PARTIALS = ('partial', 'functools.partial')
+
+
+def call_sites(fn, callee, U=ValueError):
+    """the call sites of parameter `callee` in function `fn` (see kind 'fwd'): list of
+    (positional argument texts, {keyword: value text}) in source order; raises U when the analysis
+    cannot account for every use of the callee (fail closed)"""
+    params = [a.arg for a in fn.args.args + fn.args.kwonlyargs]
+    if callee not in params:
+        raise U(f'`{callee}` is not a parameter of {fn.name}')
+    for n in ast.walk(fn):
+        if isinstance(n, (ast.FunctionDef, ast.AsyncFunctionDef, ast.Lambda, ast.ClassDef)) and n is not fn:
+            raise U('nested function / lambda / class in ' + fn.name)
+    stores = {}
+    for n in ast.walk(fn):
+        if isinstance(n, ast.Name) and isinstance(n.ctx, (ast.Store, ast.Del)):
+            stores[n.id] = stores.get(n.id, 0) + 1
+    if stores.get(callee):
+        raise U(f'`{callee}` is reassigned')
+    alias = {callee: ([], {})}            # name -> (bound positional texts, bound keywords)
+    consumed = set()                      # ids of Name nodes accounted for
+
+    def bound(call):
+        if any(isinstance(a, ast.Starred) for a in call.args) or any(k.arg is None for k in call.keywords):
+            raise U('`*` / `**` at a call of the evaluation function')
+        return [ast.unparse(a) for a in call.args], {k.arg: ast.unparse(k.value) for k in call.keywords}
+
+    def resolve(e):
+        """(bound positionals, bound keywords) if expression `e` denotes the callee, else None"""
+        if isinstance(e, ast.Name):
+            if e.id in alias:
+                consumed.add(id(e))
+                return alias[e.id]
+            return None
+        if isinstance(e, ast.Call):
+            f = ast.unparse(e.func)
+            if f in _WRAPPERS and len(e.args) == 1 and not e.keywords:
+                return resolve(e.args[0])
+            if f in _PARTIALS and e.args:
+                r = resolve(e.args[0])
+                if r is None:
+                    return None
+                inner = ast.Call(func=e.func, args=e.args[1:], keywords=e.keywords)
+                pos, kw = bound(inner)
+                return (r[0] + pos, dict(r[1], **kw))
+        return None
+
+    # aliases: `name = <expression denoting the callee>` (single assignment, simple target), to a fixpoint
+    changed = True
+    while changed:
+        changed = False
+        for n in ast.walk(fn):
+            if isinstance(n, ast.Assign) and len(n.targets) == 1 and isinstance(n.targets[0], ast.Name):
+                t = n.targets[0].id
+                if t in alias:
+                    continue
+                r = resolve(n.value)
+                if r is not None:
+                    if stores.get(t, 0) != 1:
+                        raise U(f'alias `{t}` of the evaluation function is assigned more than once')
+                    alias[t] = r
+                    changed = True
+    alias_rhs = set()
+    for n in ast.walk(fn):
+        if isinstance(n, ast.Assign) and len(n.targets) == 1 and isinstance(n.targets[0], ast.Name) \
+                and n.targets[0].id in alias and n.targets[0].id != callee:
+            alias_rhs.add(id(n.value))
+    sites = []
+    wrapped = set()
+
+    def mark_wrapped(e):
+        # sub-expressions of a callee-denoting expression are not call sites themselves
+        if isinstance(e, ast.Call):
+            wrapped.add(id(e))
+            for a in e.args[:1]:
+                mark_wrapped(a)
+    for n in ast.walk(fn):
+        if isinstance(n, ast.Call) and id(n) not in alias_rhs:
+            r = resolve(n.func)
+            if r is not None:
+                mark_wrapped(n.func)
+                pos, kw = bound(n)
+                sites.append((n.lineno, n.col_offset, r[0] + pos, dict(r[1], **kw)))
+    for v in alias_rhs:
+        pass
+    # every use of the callee / an alias must have been consumed by one of the patterns above
+    for n in ast.walk(fn):
+        if isinstance(n, ast.Name) and isinstance(n.ctx, ast.Load) and n.id in alias and id(n) not in consumed:
+            raise U(f'a reference to `{n.id}` (line {n.lineno}) escapes the recognised call patterns')
+    if not sites:
+        raise U(f'no call site of `{callee}` found')
+    sites.sort()
+    return [(p, k) for _, _, p, k in sites], stores, params
+
+
+def _fwd_leaf(m, fn, spec):
+    sites, stores, params = call_sites(fn, spec['callee'], m.Untranslatable)
+    kws = spec['keywords']
+    for pos, kw in sites:
+        if len(pos) != 2 or pos[0] != spec['first'] or not pos[1].isidentifier() or pos[1] in params:
+            raise m.Untranslatable(f"positional arguments of a call site are {pos}, expected "
+                                   f"({spec['first']}, <loop variable>)")
+        if stores.get(spec['first']):
+            raise m.Untranslatable(f"`{spec['first']}` is reassigned")
+        for k, v in kw.items():
+            if k not in kws:
+                raise m.Untranslatable(f'call site passes an unexpected keyword `{k}`')
+            if v != k or k not in params or stores.get(k):
+                raise m.Untranslatable(f'call site passes `{k}={v}`, not the caller\'s own `{k}`')
+    what = spec['what']
+    if what == 'count':
+        if spec['ret'] != 'Nat':
+            raise m.Untranslatable('count is a Nat')
+        return f'({len(sites)} : Nat)'
+    if what.startswith('kw:') and spec['ret'] == 'Bool' and list(spec['params']) == ['site']:
+        k = what[3:]
+        flags = ', '.join('true' if k in kw else 'false' for _, kw in sites)
+        return f'([{flags}] : List Bool).getD site false'
+    raise m.Untranslatable(f'unknown fwd leaf {what}')
 
 
 def _translator_module():
@@ -42,12 +175,14 @@ def _install():
     base = m.translate_leaf
 
     def translate_leaf(spec):
-        if spec.get('kind') not in ('cmp', 'expr', 'nargs'):
+        if spec.get('kind') not in ('cmp', 'expr', 'nargs', 'fwd'):
             return base(spec)
         text = open(os.path.join(m.REPO_SRC, spec['file'])).read()
         fn = m.find_func(ast.parse(text), spec['func'])
         if fn is None:
             raise m.Untranslatable(f"anchor {spec['func']} not found")
+        if spec['kind'] == 'fwd':
+            return _fwd_leaf(m, fn, spec)
         if spec['kind'] == 'nargs':
             calls = [n for n in ast.walk(fn) if isinstance(n, ast.Call) and ast.unparse(n.func) == spec['call']]
             if len(calls) != 1:
@@ -121,4 +256,11 @@ LEAVES = [
     # round 4: element type of that pre-allocated table = numpy's default (no dtype / order argument)
     dict(name='bufferExtraArgs', file=_F, func='get_searchlight_RDMs', kind='nargs', call='np.zeros',
          params={}, ret='Nat'),
+    # round 6: the call sites of `eval_function` in `evaluate_models_searchlight` and the keywords each forwards
+    dict(name='evalCallSites', file=_F, func='evaluate_models_searchlight', kind='fwd', callee='eval_function',
+         first='models', keywords=('method', 'theta'), what='count', params={}, ret='Nat'),
+    dict(name='evalFwdMethod', file=_F, func='evaluate_models_searchlight', kind='fwd', callee='eval_function',
+         first='models', keywords=('method', 'theta'), what='kw:method', params={'site': 'Nat'}, ret='Bool'),
+    dict(name='evalFwdTheta', file=_F, func='evaluate_models_searchlight', kind='fwd', callee='eval_function',
+         first='models', keywords=('method', 'theta'), what='kw:theta', params={'site': 'Nat'}, ret='Bool'),
 ]
